@@ -176,6 +176,8 @@ func runC13(c *Ctx) {
 		}
 	})
 
+	c.rule("C13.O3", banRecordedDoc, func() { c.banRecorded() })
+
 	c.rule("C13.T2", "one address, one record: the parser that builds the ban key's IP network and the encoder that serialises it split IPv4 from IPv6 with the same predicates (sibling agreement: an IPv4-mapped IPv6 spelling must be treated as the 4-byte address by both, otherwise mask and address lengths disagree and the spelling gets its own record); the parsed network is ip.Mask(mask) of the default single-address mask", func() {
 		classifiers := func(fn *ssa.Function) []string {
 			set := map[string]bool{}
@@ -459,4 +461,65 @@ func runC13(c *Ctx) {
 		}
 		c.verdict(okW, "neutrino.NewChainService | blockManagerCfg.BanPeer = s.BanPeer", c.P.Pos(nc.Pos()), "config field bound to ChainService.BanPeer", "blockManagerCfg.BanPeer is not wired to ChainService.BanPeer")
 	})
+}
+
+const banRecordedDoc = "a ban or unban that reports success was carried out: inside the transaction of BanIPNet every return is either the result of addBannedIPNet or an error that cannot be nil (no path reports success without writing the record, e.g. because a stale record exists); likewise UnbanIPNet with removeBannedIPNet; addBannedIPNet returns nil only after both Puts succeeded"
+
+// banRecorded: see banRecordedDoc.
+func (c *Ctx) banRecorded() {
+	upd := c.funcObj("github.com/btcsuite/btcwallet/walletdb", "Update")
+	for _, spec := range []struct {
+		name string
+		op   *types.Func
+	}{
+		{"(*banman.banStore).BanIPNet", c.funcObj("banman", "addBannedIPNet")},
+		{"(*banman.banStore).UnbanIPNet", c.funcObj("banman", "removeBannedIPNet")},
+	} {
+		fn := c.fn(spec.name)
+		cls := closuresPassedTo(fn, upd)
+		construct := spec.name + " | success only through " + spec.op.Name()
+		if len(cls) != 1 {
+			c.fail(construct, c.P.Pos(fn.Pos()), fmt.Sprintf("expected one transaction closure, found %d", len(cls)))
+			continue
+		}
+		cl := cls[0]
+		var bad, sites []string
+		n := 0
+		for _, r := range find(cl, isExit) {
+			v := ir.RetVal(r.(*ssa.Return), 0)
+			sites = append(sites, c.at(r))
+			switch {
+			case valIsCallTo(spec.op)(v):
+				n++
+			case !ir.IsNil(v) && knownNonNilError(v):
+			default:
+				bad = append(bad, "return at "+c.at(r)+" can report success without "+spec.op.Name())
+			}
+		}
+		sort.Strings(bad)
+		c.verdict(len(bad) == 0 && n >= 1, construct, c.P.Pos(fn.Pos()), fmt.Sprintf("%d return(s): the index operation's result or a non-nil error", len(sites)), join(bad), sites...)
+		// the method returns the transaction's result
+		okRet := true
+		for _, r := range find(fn, isExit) {
+			v := ir.RetVal(r.(*ssa.Return), 0)
+			if !ir.DerivesFrom(v, valIsCallTo(upd)) {
+				okRet = false
+			}
+		}
+		c.verdict(okRet, spec.name+" | returns the transaction's error", c.P.Pos(fn.Pos()), "return walletdb.Update(..)", spec.name+" does not return the transaction's result")
+	}
+	add := c.fn("banman.addBannedIPNet")
+	put := c.method("github.com/btcsuite/btcwallet/walletdb", "ReadWriteBucket", "Put")
+	puts := find(add, callTo(put))
+	var bad []string
+	for _, r := range find(add, isExit) {
+		v := ir.RetVal(r.(*ssa.Return), 0)
+		if ir.IsNil(v) || !(valIsCallTo(put)(v) || ir.DerivesFrom(v, valIsCallTo(put))) {
+			bad = append(bad, "return at "+c.at(r)+" is not the result of a Put")
+		}
+	}
+	c.verdict(len(bad) == 0 && len(puts) == 2, "banman.addBannedIPNet | nil only after both Puts", c.P.Pos(add.Pos()), "returns a Put error or the last Put's result", join(bad)+fmt.Sprintf(" (%d Puts)", len(puts)))
+	if len(puts) == 2 {
+		c.guarded(add, errNil("banIndex.Put", puts[:1], 0), 1, "reasonIndex.Put", puts[1:], 1, gDominate)
+	}
 }
